@@ -1160,7 +1160,8 @@ func commitLock(batch *leveldb.Batch, lock mvccLock, key []byte, startTS, commit
 	switch lock.op {
 	case kvrpcpb.Op_Put:
 		valueType = typePut
-	case kvrpcpb.Op_Lock:
+	case kvrpcpb.Op_Lock, kvrpcpb.Op_PessimisticLock:
+		// committing a leftover pessimistic lock changes no data (as in TiKV)
 		valueType = typeLock
 	default:
 		valueType = typeDelete
